@@ -14,7 +14,16 @@ History = calls that follow other calls (only on calculators whose every single 
          arrays it got back, and uses two calculators over the same materials alternately with the same array; every
          call inside a history is judged against the record of the same (weights, density) from the first pass.
 Arguments = the materials list, the Formula objects, the wavelength argument and the weight array are compared with
-         their state before the call."""
+         their state before the call.
+Creation = the calculator is precomputed for the list and the wavelength it was CREATED with: the caller edits its
+         list of materials (replace a member, reverse, append, clear) or its wavelength array / list (scale,
+         overwrite) in place between creation and first evaluation, or between two evaluations; every evaluation
+         is judged against the records for the creation-time list and wavelength.
+Derived  = material objects are reused: m is looked at and used in a calculator, THEN 6*m, m+o, o+m are built or m
+         is extended in place (m += o) and the derived material is used in a second calculator (alone, with m, after
+         o) at the same or another wavelength argument; the second calculator is judged against the direct route on
+         the composition the check computes itself, the first one is judged again."""
+import copy
 import itertools
 import math
 
@@ -43,7 +52,16 @@ META = dict(
           "roles; a history case is non-trivial when the judged call is not a vacuum and differs from the call "
           "before it.  ARGUMENTS: the materials list, every Formula in it (structure with atoms by identity, "
           "density, name, text) and the wavelength argument are compared with their state before the constructor "
-          "and again after all calls; the weight array is compared byte for byte after every call"),
+          "and again after all calls; the weight array is compared byte for byte after every call.  CREATION-TIME "
+          "VALUES: for every calculator of a list of length <= 2 whose single calls were right, a new calculator is "
+          "created on the caller's own list object and wavelength buffer, which are then edited in place (4 list "
+          "edits, 2 buffer edits for array / list wavelengths) before the first or between two evaluations; all "
+          "(weights, density) states are evaluated and judged against the untouched calculator's records.  DERIVED "
+          "MATERIALS: (base m of 6) x (other o of 2) x (6*m | m+o | o+m | m+=o) x (first calculator [m] | [m,o]) x "
+          "(second calculator [d] | [d,m] | [o,d]) x 5 pairs of wavelength forms on fresh Formula objects; m is read "
+          "(str, mass, atoms, hill) and used once, then d is derived and used; weights {0, 1, 3}^n x density {1, 2.5} "
+          "on the second calculator and again on the first; each derivation is first executed on objects that were "
+          "never used (control, plain signatures)"),
     bound=dict(
         quick="all 156 lists of length 1..2 and the 408 lists of length 3 in which a material is repeated; 4^n weight "
               "vectors; 3 densities; wavelength forms default, float, "
@@ -51,10 +69,13 @@ META = dict(
               "array whose length equals the number of materials.  Histories: the lists among these over the 6 "
               "materials H2O, B4C, Gd2O3, Lu[176], Au, C15D31(named) x forms {default, float, length-4 array, "
               "length-n array}; n <= 2: all 12 / 48 states, i.e. 144 / 2304 ordered pairs; n = 3: weights {0, 1}^3 x "
-              "density {1, 2.5}, 256 ordered pairs",
+              "density {1, 2.5}, 256 ordered pairs.  Creation-time values: the 42 lists of length <= 2 over these 6 materials x "
+              "forms {default, float, length-1 / length-4 / length-n array, length-4 list} x 4-6 edits x 2 timings x all "
+              "states.  Derived materials: 1320 histories + 528 controls",
         thorough="all 1884 lists of length 1..3; 4^n weight vectors; 3 densities; the same nine wavelength forms.  "
                  "Histories: every list of length 1..2 with all states and all nine forms; lists of 3 over the 6 "
-                 "materials above with weights {0, 1, 3}^3 x density {1, 2.5} (2916 ordered pairs), all nine forms"),
+                 "materials above with weights {0, 1, 3}^3 x density {1, 2.5} (2916 ordered pairs), all nine forms.  "
+                 "Creation-time values: all 156 lists of length <= 2 x all nine forms.  Derived materials as in quick"),
     assumptions=[
         "the formula sum_i w_i*material_i is handed to neutron_sld as the atom dictionary {atom: sum_i w_i*count_i} "
         "built by the check from each material's .atoms (formula arithmetic itself is C02)",
@@ -67,10 +88,15 @@ META = dict(
         "the shape of the direct route's outputs is not judged here (C04); it is broadcast to the calculator's",
         "per-atom b_c(lambda) and sigma_s(lambda) enter only the tolerance scales, read through "
         "Neutron.scattering_by_wavelength",
-        "a calculator answers for the materials and wavelengths it was built with; what it should do when the caller "
-        "changes the wavelength array, the materials list or a material AFTER construction is not in the statement: "
-        "such events are not in the alphabet (the caller only ever changes the weight array and the arrays returned "
-        "to it)",
+        "a calculator answers for the list of materials and the wavelengths it was CREATED with: the statement speaks of "
+        "'the precomputed calculator' for a list of materials and a wavelength, and the docstring of "
+        "neutron_composite_sld says 'Table lookups and partial sums and constants are precomputed' - so a later in-place "
+        "edit of the caller's list object or wavelength array / list must not change what the calculator returns.  What "
+        "a calculator should return after one of its MATERIAL objects was itself changed in place (m += o, m.density = x) "
+        "is not in the statement (which composition 'material_i' then means is open): after m += o the calculator that was "
+        "created with m is not judged any more; calculators created afterwards are judged for the extended m",
+        "a derived material is the composition the check computes itself from the operands' .atoms (n*q; sums); if "
+        "the library's n*m / m+o reports other atoms (formula arithmetic, C02) the history is counted and not judged",
         "'unaltered argument' means the values a caller can read (list members by identity, Formula structure / "
         "density / name / text, array bytes), not private attributes the library might attach to its own objects",
         "histories longer than two calls are covered only as they occur inside the walks (each call is judged, but "
@@ -154,6 +180,13 @@ class Env(object):
         self.atoms = [list(f.atoms.items()) for f in self.F]
         self.seen = [formula_state(f) for f in self.F]
         self.default_wavelength = nsf.ABSORPTION_WAVELENGTH
+        self.pre = []              # lines of a stand-alone script that come before 'materials = [...]'
+
+    def name(self, i):
+        return MATERIALS[i]
+
+    def code(self, i):
+        return material_code(MATERIALS[i])
 
     def pyname(self, a):
         if hasattr(a, "isotope"):
@@ -239,8 +272,8 @@ def _snippet(E, mats, weights, density, form):
             if w * q != 0:
                 atoms[a] = atoms.get(a, 0) + w * q
     ad = "{%s}" % ", ".join("%s: %r" % (E.pyname(a), float(c)) for a, c in atoms.items())
-    lines = ["import numpy as np", "import periodictable as pt", "from periodictable import formula, nsf",
-             "materials = [%s]" % ", ".join(material_code(MATERIALS[i]) for i in mats),
+    lines = ["import numpy as np", "import periodictable as pt", "from periodictable import formula, nsf"] + list(E.pre) + [
+             "materials = [%s]" % ", ".join(E.code(i) for i in mats),
              "calc = nsf.neutron_composite_sld(materials%s)" % ("" if wl is None else ", wavelength=%s" % wl),
              "print(calc(np.array(%r), density=%r))" % ([float(w) for w in weights], density),
              "print(nsf.neutron_sld(%s, density=%r%s))" % (ad, density, "" if wl is None else ", wavelength=%s" % wl)]
@@ -273,7 +306,8 @@ class ListCheck(object):
         self.recs = {}
 
     def case(self, weights=None, density=None):
-        c = dict(materials=[MATERIALS[i] for i in self.mats], wl=self.form)
+        c = dict(materials=[self.E.name(i) for i in self.mats], wl=self.form)
+        c.update(getattr(self.E, "case_extra", {}))
         if weights is not None:
             c["weights"] = [float(w) for w in weights]
             c["density"] = density
@@ -304,7 +338,7 @@ class ListCheck(object):
         snip = _snippet(E, self.mats, [1] * len(self.mats), 1, self.form)
         if len(mats) != len(self.mats) or any(m is not E.F[i] for m, i in zip(mats, self.mats)):
             acc.violation("argument-altered:%s:materials-list" % when, self.case(),
-                          expected=[MATERIALS[i] for i in self.mats], observed=[str(m) for m in mats], standalone=snip)
+                          expected=[E.name(i) for i in self.mats], observed=[str(m) for m in mats], standalone=snip)
             return False
         for i in self.mats:
             now = formula_state(E.F[i])
@@ -561,6 +595,109 @@ class ListCheck(object):
         return True
 
 
+    # ------------------------------------------------------------------ the caller edits its arguments after creation
+    def edit_snippet(self, what, kind, timing, first, cur):
+        E, n = self.E, len(self.mats)
+        lines = _snippet(E, self.mats, cur[0], cur[1], self.form).rstrip("\n").split("\n")
+        head, direct = lines[:-3], lines[-1]
+        wl = _wl_code(self.form, n)
+        body = []
+        if wl is not None:
+            body.append("wl = %s" % wl)
+        body.append("calc = nsf.neutron_composite_sld(materials%s)" % ("" if wl is None else ", wavelength=wl"))
+        if timing == "between-evaluations":
+            body.append("calc(np.array(%r), density=%r)" % ([float(x) for x in first[0]], first[1]))
+        edit = EDIT_CODE[(what, kind)]
+        if "%s" in edit:
+            edit = edit % E.code((self.mats[-1] + 1) % len(MATERIALS))
+        body.append(edit + "          # the caller goes on using its own list / array")
+        body.append("print(calc(np.array(%r), density=%r))" % ([float(x) for x in cur[0]], cur[1]))
+        return "\n".join(head + body + [direct]) + "\n"
+
+    def creation_histories(self, acc, states):
+        """The calculator is precomputed for the list of materials and the wavelength it was CREATED with (docstring:
+        'Table lookups and partial sums and constants are precomputed'; the statement: 'the precomputed calculator'
+        for a list of materials and a wavelength).  The caller goes on using its own list and its own wavelength
+        array - edits them in place - between the creation and the first evaluation, or between two evaluations;
+        every evaluation must still be the direct calculation for the creation-time materials and wavelengths (the
+        records of the first pass, in which list and wavelength were not touched)."""
+        E = self.E
+        n = len(self.mats)
+        edits = [("materials-list", k) for k in LIST_EDITS]
+        if isinstance(self.wl, (np.ndarray, list)):
+            edits += [("wavelength-buffer", k) for k in BUFFER_EDITS]
+        for what, kind in edits:
+            for timing in ("before-first-evaluation", "between-evaluations"):
+                L = [E.F[i] for i in self.mats]
+                buf = copy.deepcopy(self.wl)                  # the caller's own array / list; self.wl keeps the values
+                acc.evaluations += 1
+                with np.errstate(all="ignore"):
+                    calc = E.nsf.neutron_composite_sld(L) if buf is None else E.nsf.neutron_composite_sld(L, wavelength=buf)
+                lc = copy.copy(self)                          # shares the records of the first pass
+                lc.calc = calc
+                sig = "history:caller-edits-%s-after-creation:%s" % (what, timing)
+                first = states[-1]
+                todo = ([(first, False)] if timing == "between-evaluations" else []) + [(st, True) for st in states]
+                done = False
+                for state, edited in todo:
+                    if edited and not done:
+                        apply_edit(E, what, kind, L, buf, self.mats)
+                        done = True
+                    acc.states += 1
+                    acc.transitions += 1
+                    acc.evaluations += 1
+                    case = dict(self.case(state[0], state[1]), mode="edit-after-creation", edit=[what, kind], timing=timing)
+                    snip = lambda st=state: self.edit_snippet(what, kind, timing, first, st)
+                    w = np.array(state[0], dtype=float)
+                    got = lc.call(acc, w, state[1], case, snip, history=sig)
+                    if got is None:
+                        return False
+                    rec = self.expect(state[0], state[1])
+                    if edited and not rec["vacuum"]:
+                        acc.nontrivial += 1
+                    if not lc.judge(acc, got, rec, case, snip, history=sig):
+                        return False
+                acc.outcome("%s:ok" % sig)
+        return True
+
+
+LIST_EDITS = ("replace-member", "reverse", "append", "clear")
+BUFFER_EDITS = ("scale", "overwrite")
+EDIT_CODE = {
+    ("materials-list", "replace-member"): "materials[-1] = %s",
+    ("materials-list", "reverse"): "materials.reverse()",
+    ("materials-list", "append"): "materials.append(%s)",
+    ("materials-list", "clear"): "del materials[:]",
+    ("wavelength-buffer", "scale"): "wl[:] = [2.5*x for x in wl]",
+    ("wavelength-buffer", "overwrite"): "wl[:] = [1.0 for x in wl]",
+}
+
+
+def apply_edit(E, what, kind, L, buf, mats):
+    """The caller's own in-place change of the list of materials / of the wavelength array or list."""
+    other = E.F[(mats[-1] + 1) % len(MATERIALS)]
+    if what == "materials-list":
+        if kind == "replace-member":
+            L[-1] = other
+        elif kind == "reverse":
+            L.reverse()
+        elif kind == "append":
+            L.append(other)
+        elif kind == "clear":
+            del L[:]
+        else:
+            raise MachineryError("edit %r" % (kind,))
+    elif what == "wavelength-buffer":
+        if kind == "scale":
+            buf[:] = [2.5 * x for x in buf]
+        elif kind == "overwrite":
+            buf[:] = [1.0 for x in buf]
+        else:
+            raise MachineryError("edit %r" % (kind,))
+    else:
+        raise MachineryError("edit %r" % (what,))
+
+
 SCRIBBLE = -7250.0
 
 
@@ -569,6 +706,7 @@ SCRIBBLE = -7250.0
 # "energy-dependent (complex, per-wavelength values) or not", "repeated or not", "same text or not".
 WALK_MATERIALS = ("H2O", "B4C", "Gd2O3", "Lu[176]", "Au", "C15D31 name=tail")
 WALK_FORMS_QUICK = ("default", "float", "arr4", "arrN")
+EDIT_FORMS_QUICK = ("default", "float", "arr1", "arr4", "list4", "arrN")
 WALK3_QUICK = ((0, 1), (1, 2.5))
 WALK3_THOROUGH = ((0, 1, 3), (1, 2.5))
 TWO_DENSITIES = (1, 2.5)
@@ -632,10 +770,231 @@ def check_list(E, acc, mats, forms, sample=False, only=None, tier="quick"):
         if ok:
             lc.arguments_intact(acc, lc._mats, lc._wl_before, "calls")
         acc.count("history_walks")
+    if n <= 2:
+        edit_forms = EDIT_FORMS_QUICK if tier == "quick" else FORMS_THOROUGH
+        for lc in clean:
+            if lc.form in edit_forms and (only is None or lc.form in only):
+                if lc.creation_histories(acc, states):
+                    lc.arguments_intact(acc, lc._mats, lc._wl_before, "edit-histories")
+                acc.count("edit_after_creation_calculators")
     acc.info["max_walk_states"] = max(acc.info.get("max_walk_states", 0), len(states))
 
 
+# ---------------------------------------------------------------------------------------------
+# materials derived from materials that were already used in a calculator
+#
+# The caller owns its Formula objects and goes on working with them: m is used in a calculator, THEN n*m, m+o, o+m
+# are built from it, or m itself is extended in place (m += o), and the derived material is used in a second
+# calculator (alone, together with m, after o), at the same wavelength argument or at another one.  n*m is a copy of
+# m with another structure: whatever an earlier use attached to m must not describe the copy.
+D_BASES = ("H2O", "B4C", "Gd2O3", "Lu[176]", "Au", "C15D31 name=tail")
+D_OTHERS = ("D2O", "Gd2O3")
+DERIVATIONS = ("n*m", "m+o", "o+m", "m+=o")
+D_FIRST = ("m", "m,o")
+D_SECOND = ("d", "d,m", "o,d")
+D_FORMS = (("default", "default"), ("float", "float"), ("arr1", "arr1"), ("arr4", "arr4"), ("float", "arr4"))
+D_WEIGHTS = (0, 1, 3)
+D_DENSITIES = (1, 2.5)
+D_N = 6
+
+
+class DerivedEnv(object):
+    """The caller-owned materials of one derivation history (fresh Formula objects), in the shape ListCheck wants."""
+    def __init__(self, E, extra):
+        self.pt, self.nsf, self.NA, self.default_wavelength, self.pyname = E.pt, E.nsf, E.NA, E.default_wavelength, E.pyname
+        self.F, self.atoms, self.seen, self.names, self.codes, self.pre = [], [], [], [], [], []
+        self.case_extra = extra
+
+    def add(self, name, f, atoms, code=None):
+        self.F.append(f); self.atoms.append(list(atoms)); self.seen.append(formula_state(f)); self.names.append(name)
+        self.codes.append(code or name)
+        return len(self.F) - 1
+
+    def name(self, i):
+        return self.names[i]
+
+    def code(self, i):
+        return self.codes[i]
+
+
+def _merge(*atom_lists):
+    out = {}
+    for atoms in atom_lists:
+        for a, q in atoms:
+            out[a] = out.get(a, 0) + q
+    return list(out.items())
+
+
+def _observe(f):
+    """What a caller may look at before going on (anything of this could be memoised on the object)."""
+    return (str(f), f.mass, dict(f.atoms), str(f.hill), f.molecular_mass, f.density, f.charge, repr(f))
+
+
+def _judged_calls(lc, acc, sig, part):
+    """All (weights, density) of the derivation grid on calculator lc; history signature sig (None: plain).
+    -> False after a violation."""
+    n = len(lc.mats)
+    for weights in itertools.product(D_WEIGHTS, repeat=n):
+        for density in D_DENSITIES:
+            acc.states += 1
+            acc.transitions += 1
+            acc.evaluations += 2
+            w = np.array(weights, dtype=float)
+            case = lc.case(weights, density)
+            if part:
+                case["judged"] = part
+            snip = lambda: _snippet(lc.E, lc.mats, weights, density, lc.form)
+            got = lc.call(acc, w, density, case, snip, history=sig)
+            if got is None:
+                return False
+            rec = lc.expect(weights, density)
+            if not rec["vacuum"]:
+                acc.nontrivial += 1
+            if not lc.judge(acc, got, rec, case, snip, history=sig):
+                return False
+    return True
+
+
+def derivation_history(E, acc, base, other, deriv, first, second, forms, use_first=True):
+    """use_first=False is the control: the same derivation and second calculator on objects that were never used.
+    -> True (agrees) | False (violation reported) | None (not judged)."""
+    from periodictable import formula
+    extra = dict(mode="derived-after-use" if use_first else "derived", base=base, other=other, derivation=deriv,
+                 first=first, second=second, wl1=forms[0])
+    V = DerivedEnv(E, extra)
+    m, o = material_formula(formula, base), material_formula(formula, other)
+    im = V.add("m", m, m.atoms.items())
+    io = V.add("o", o, o.atoms.items())
+    V.pre += ["m = %s" % material_code(base), "o = %s" % material_code(other)]
+    lc1 = None
+    if use_first:
+        _observe(m)
+        lc1 = ListCheck(V, [im] if first == "m" else [im, io], forms[0])
+        if not lc1.build(acc):
+            return False
+        ones = (1,) * len(lc1.mats)
+        wl = _wl_code(forms[0], len(lc1.mats))
+        V.pre += ["print(m, m.mass, m.atoms, m.hill)",
+                  "calc1 = nsf.neutron_composite_sld([%s]%s)" % (first, "" if wl is None else ", wavelength=%s" % wl),
+                  "calc1(np.array(%r), density=1)      # m has been used" % ([1.0] * len(ones),)]
+        acc.transitions += 1
+        acc.evaluations += 1
+        got = lc1.call(acc, np.array(ones, dtype=float), 1, lc1.case(ones, 1), lambda: _snippet(V, lc1.mats, ones, 1, forms[0]))
+        if got is None or not lc1.judge(acc, got, lc1.expect(ones, 1), lc1.case(ones, 1),
+                                        lambda: _snippet(V, lc1.mats, ones, 1, forms[0])):
+            return False
+    if deriv == "n*m":
+        d = D_N * m
+        atoms_d = [(a, D_N * q) for a, q in V.atoms[im]]
+        V.pre.append("d = %d*m" % D_N)
+    elif deriv == "m+o":
+        d = m + o
+        atoms_d = _merge(V.atoms[im], V.atoms[io])
+        V.pre.append("d = m + o")
+    elif deriv == "o+m":
+        d = o + m
+        atoms_d = _merge(V.atoms[io], V.atoms[im])
+        V.pre.append("d = o + m")
+    elif deriv == "m+=o":
+        m += o
+        d = m
+        atoms_d = _merge(V.atoms[im], V.atoms[io])
+        V.atoms[im] = list(atoms_d)                 # m IS the extended material now (the caller's own change)
+        V.seen[im] = formula_state(m)
+        V.pre.append("m += o; d = m")
+    else:
+        raise MachineryError("derivation %r" % (deriv,))
+    if dict(d.atoms) != dict(atoms_d):
+        acc.count("derived_material_composition_differs_not_judged")        # formula arithmetic is C02
+        return None
+    idd = V.add("d", d, atoms_d)
+    idx = dict(m=im, o=io, d=idd)
+    lc2 = ListCheck(V, [idx[k] for k in second.split(",")], forms[1])
+    if not lc2.build(acc):
+        return False
+    if use_first:
+        sig = "history:material-derived-after-use:%s:%s" % (deriv, "same-wavelength-argument" if forms[0] == forms[1]
+                                                             else "other-wavelength-argument")
+    else:
+        sig = None
+    if not _judged_calls(lc2, acc, sig, "second-calculator"):
+        return False
+    if use_first and deriv != "m+=o":
+        # the first calculator still answers for m
+        wl2 = _wl_code(forms[1], len(lc2.mats))
+        V.pre += ["calc2 = nsf.neutron_composite_sld([%s]%s)" % (second, "" if wl2 is None else ", wavelength=%s" % wl2),
+                  "calc2(np.array(%r), density=1)" % ([1.0] * len(lc2.mats),)]
+        if not _judged_calls(lc1, acc, "history:earlier-calculator-after-derived-material-was-used:%s" % deriv,
+                             "first-calculator"):
+            return False
+    acc.outcome("%s:%s:ok" % ("history:material-derived-after-use" if use_first else "derived-material-unused", deriv))
+    return True
+
+
+def plain_lists(E, acc, base, other, form):
+    """[m], [o], [m, o] and [o, m] on fresh objects without any derivation, over the derivation grid."""
+    from periodictable import formula
+    V = DerivedEnv(E, {})
+    m, o = material_formula(formula, base), material_formula(formula, other)
+    im = V.add(base, m, m.atoms.items(), material_code(base))
+    io = V.add(other, o, o.atoms.items(), material_code(other))
+    for mats in ([im], [io], [im, io], [io, im]):
+        lc = ListCheck(V, mats, form)
+        if not lc.build(acc) or not _judged_calls(lc, acc, None, None):
+            return False
+    return True
+
+
+def derive_plan():
+    return [(b, o, dv, f, s2, fm) for b in D_BASES for o in D_OTHERS if o != b for dv in DERIVATIONS for f in D_FIRST
+            for s2 in D_SECOND for fm in D_FORMS]
+
+
+def _derive_shard(args):
+    plans, tier = args
+    E = Env()
+    acc = Acc()
+    control = {}
+    plain = {}
+    for b, o, dv, f, s2, fm in plans:
+        # nothing beyond a broken state: the underived materials alone, on this grid, with plain signatures
+        for form in fm:
+            if (b, o, form) not in plain:
+                plain[(b, o, form)] = plain_lists(E, acc, b, o, form)
+        if not (plain[(b, o, fm[0])] and plain[(b, o, fm[1])]):
+            acc.count("derivation_histories_not_explored_beyond_a_violation_or_unjudged")
+            continue
+        ck = (b, o, dv, s2, fm[1])
+        if ck not in control:
+            # the derived material in the second calculator WITHOUT any earlier use: plain signatures
+            control[ck] = derivation_history(E, _Renamed(acc, "derived-material:"), b, o, dv, f, s2, fm, use_first=False)
+        if control[ck] is not True:
+            acc.count("derivation_histories_not_explored_beyond_a_violation_or_unjudged")
+            continue
+        derivation_history(E, acc, b, o, dv, f, s2, fm)
+    acc.traces = acc.transitions
+    return acc
+
+
+class _Renamed(object):
+    """An Acc whose violation signatures get a prefix."""
+    def __init__(self, acc, prefix):
+        object.__setattr__(self, "_acc", acc)
+        object.__setattr__(self, "_prefix", prefix)
+
+    def violation(self, signature, *a, **k):
+        return self._acc.violation(self._prefix + signature, *a, **k)
+
+    def __getattr__(self, name):
+        return getattr(self._acc, name)
+
+    def __setattr__(self, name, value):
+        setattr(self._acc, name, value)
+
+
 def _shard(args):
+    if args[0] == "derive":
+        return _derive_shard(args[1:])
     lists, tier, _ = args
     E = Env()
     acc = Acc()
@@ -654,7 +1013,11 @@ def run(ctx):
     lists = rotate(lists, ctx.seed)
     nshards = 32 if ctx.quick else 96
     jobs = [(part, ctx.tier, i) for i, part in enumerate(chunks(lists, nshards))]
+    plans = derive_plan()
+    for key in sorted(set(p[:2] for p in plans)):              # one shard per (base, other)
+        jobs.append(("derive", [p for p in plans if p[:2] == key], ctx.tier))
     ctx.pmap(_shard, jobs)
+    ctx.acc.info["derivation_histories"] = len(plans)
     acc = ctx.acc
     acc.traces = acc.transitions
     acc.info["lists"] = len(lists)
@@ -667,6 +1030,11 @@ def run(ctx):
 
 def replay(ctx, case, signature=None):
     E = Env()
+    if case.get("mode") in ("derived-after-use", "derived"):
+        acc = ctx.acc if case["mode"] == "derived-after-use" else _Renamed(ctx.acc, "derived-material:")
+        derivation_history(E, acc, case["base"], case["other"], case["derivation"], case["first"], case["second"],
+                           (case["wl1"], case["wl"]), use_first=(case["mode"] == "derived-after-use"))
+        return
     try:
         mats = [MATERIALS.index(s) for s in case["materials"]]
     except ValueError:
@@ -678,6 +1046,14 @@ def replay(ctx, case, signature=None):
     if mode is None:
         if "weights" in case:
             lc.check(ctx.acc, tuple(case["weights"]), case["density"])
+        return
+    if mode == "edit-after-creation":
+        n = len(mats)
+        for weights in itertools.product(WEIGHTS, repeat=n):          # the records of the untouched calculator
+            for density in DENSITIES:
+                if not lc.check(ctx.acc, weights, density):
+                    return
+        lc.creation_histories(ctx.acc, [(w, d) for w in itertools.product(WEIGHTS, repeat=n) for d in DENSITIES])
         return
     # a history: first the recorded pair of calls on a new calculator ...
     prev = (tuple(case["previous"][0]), case["previous"][1])
